@@ -21,8 +21,7 @@ pub fn configs(tier: Tier) -> Vec<Config> {
     let mut v = Vec::new();
     for kind in MultiKind::NON_LOG {
         for m in [1usize, 2, 4] {
-            if m == 4 && tier == Tier::Quick { continue }
-            let depth = match (tier, m) { (Tier::Quick, 1) => 64, (Tier::Quick, _) => 11, (Tier::Thorough, 1) => 64, (Tier::Thorough, 2) => 64, (Tier::Thorough, _) => 11 };
+            let depth = match (tier, m) { (Tier::Quick, 1) => 64, (Tier::Quick, 2) => 11, (Tier::Quick, _) => 7, (Tier::Thorough, 1) => 64, (Tier::Thorough, 2) => 64, (Tier::Thorough, _) => 11 };
             v.push(Config { name: format!("multi-{}/M{m}", kind.name()), max_depth: depth,
                 build: Box::new(move || { macro_rules! mk { ($M:literal) => { match kind {
                     MultiKind::AA => Box::new(MultiSys::<ChannelMultiArcAtomic<u32, 4, $M>>::new($M)) as Box<dyn Sys>,
@@ -217,7 +216,7 @@ pub fn scenarios(tier: Tier) -> Vec<crate::registry::ScenarioDef> {
         for m in [1usize, 2] {
             for (idx, leftovers) in [1usize, 2].into_iter().enumerate() {
                 let spec = RecycleSpec { kind, m, leftovers };
-                let bound = match tier { Tier::Quick => 2, Tier::Thorough => 4 };
+                let bound = match tier { Tier::Quick => 3, Tier::Thorough => 4 };
                 defs.push(crate::registry::ScenarioDef { prop: "C10", family: format!("multi-{}/recycle/M{m}", kind.name()), rung: format!("E{leftovers}"), rung_idx: idx, max_bound: bound,
                     make: Arc::new(move || { let sp = spec.clone(); crate::dispatch_multi!(sp.kind, 4, sp.m, make_recycle(sp)) }) });
             }
